@@ -42,6 +42,11 @@ fn spec() -> CtxSpec {
             HostFn { kind: "hv2", name: "in_".into() },
             HostFn { kind: "hthis_v", name: "m1_".into() },
             HostFn { kind: "hv1", name: "__".into() },
+            // the all-arguments extractor next to another extractor (known finding K02: an argument
+            // the other extractor has resolved is resolved again)
+            HostFn { kind: "hthis_args", name: "ta".into() },
+            HostFn { kind: "hv_args", name: "pa".into() },
+            HostFn { kind: "hargs_v", name: "ap".into() },
         ],
     }
 }
@@ -83,7 +88,17 @@ impl<'a> G<'a> {
             return self.leaf();
         }
         let d = depth - 1;
-        let e = match self.rng.below(22) {
+        let e = match self.rng.below(24) {
+            22 => {
+                // membership in a list literal: hit (some element is the needle's leaf) or miss
+                let n = 1 + self.rng.below(4);
+                let elems: Vec<String> = (0..n).map(|_| self.expr(d)).collect();
+                format!("({} in [{}])", self.expr(d), elems.join(", "))
+            }
+            23 => {
+                let k = self.leaf();
+                format!("({} in {{{}: {}, {}: {}}})", k, self.leaf(), self.expr(d), self.leaf(), self.expr(d))
+            }
             19 => {
                 let f = *self.rng.pick(&["f1_", "_g1_", "not_", "__"]);
                 format!("{}({})", f, self.expr(d))
@@ -149,6 +164,30 @@ impl<'a> G<'a> {
     }
 }
 
+/// The property itself on the implementation's log: in a program without macros every logging
+/// leaf `tag(id, ..)` carries its own id, so no id may occur twice in the log.
+fn once_law(src: &str, sp: &CtxSpec) -> Option<String> {
+    if [".map(", ".filter(", ".all(", ".exists(", ".exists_one(", ".existsOne("].iter().any(|m| src.contains(m)) {
+        return None;
+    }
+    let (_, imp) = run_program(src, sp);
+    let pat = "(call (str 116 97 103) (int ";
+    let mut ids: Vec<&str> = imp.match_indices(pat).map(|(i, _)| {
+        let rest = &imp[i + pat.len()..];
+        &rest[..rest.find(')').unwrap_or(0)]
+    }).collect();
+    ids.sort();
+    let dup: Vec<&str> = ids.windows(2).filter(|w| w[0] == w[1]).map(|w| w[0]).collect();
+    Some(if dup.is_empty() { "(bool true)".to_string() } else { format!("(law-violated evaluated-more-than-once tag-ids {})", dup.join(",")) })
+}
+
+fn emit_with_law(em: &mut Emit, src: &str, sp: &CtxSpec, tags: &str) {
+    emit_program(em, src, sp, tags);
+    if let Some(law) = once_law(src, sp) {
+        em.case("(echo (bool true))", &law, "nt=1;kind=law-once", src);
+    }
+}
+
 pub fn run(em: &mut Emit, thorough: bool, seed: u64) {
     let sp = spec();
     // corpus: the call shapes whose first argument used to be evaluated twice
@@ -162,8 +201,13 @@ pub fn run(em: &mut Emit, thorough: bool, seed: u64) {
               "f1_(tag(1, 1))", "not_(tag(1, 1))", "__(tag(1, 1))", "_g1_(_g1_(_g1_(tag(1, 1))))", "f2_(tag(1, 1), tag(2, 2))",
               "in_(tag(1, 1), tag(2, 2))", "tag(1, 1).m1_(tag(2, 2))", "tag(1, 1).f1_()", "f1_(f1_(f1_(f1_(f1_(tag(1, 1))))))",
               "has(tag(1, mm).a)", "has(tag(1, mm).a.b)", "has(tag(1, mm).a.b.c)", "has(tag(1, mm).a.x.y)", "tag(1, mm).a.b.c",
-              "l.map(x, has(tag(x, mm).a.b.c))", "has(tag(1, mm).a.b.c.d)", "has({'p': tag(1, mm)}.p.a.b)"] {
-        emit_program(em, p, &sp, "nt=1;kind=corpus");
+              "l.map(x, has(tag(x, mm).a.b.c))", "has(tag(1, mm).a.b.c.d)", "has({'p': tag(1, mm)}.p.a.b)",
+              "tag(1, 5) in [tag(2, 1), tag(3, 2), tag(4, 3)]", "tag(1, 2) in [tag(2, 1), tag(3, 2), tag(4, 3)]", "tag(1, 1) in []",
+              "tag(0, 1) in [tag(1, 2) in [tag(2, 3) in [tag(3, 4) in [tag(4, 5) in [tag(5, 6) in [tag(6, 7)]]]]]]",
+              "tag(1, 'k') in {tag(2, 'a'): tag(3, 1), tag(4, 'b'): tag(5, 2)}", "tag(1, 9) in l", "tag(1, 2) in tag(2, l)",
+              "tag(1, 1).ta(tag(2, 2), tag(3, 3))", "tag(1, 1).ta()", "ta(tag(1, 1), tag(2, 2), tag(3, 3))", "ta(tag(1, 1))",
+              "pa(tag(1, 1), tag(2, 2))", "tag(1, 1).pa(tag(2, 2))", "ap(tag(1, 1), tag(2, 2))", "ap(tag(1, 1))", "pa(tag(1, 1))", "ta()", "pa()"] {
+        emit_with_law(em, p, &sp, "nt=1;kind=corpus");
     }
     // nested chains: the log length is the depth (it was 2^depth)
     let maxd = if thorough { 22 } else { 14 };
@@ -188,6 +232,6 @@ pub fn run(em: &mut Emit, thorough: bool, seed: u64) {
         let d = 1 + g.rng.below(if thorough { 7 } else { 5 }) as u32;
         let src = g.expr(d);
         let nt = src.matches("f1(").count() + src.matches("f2(").count() + src.matches(".m1(").count() + src.matches("size(").count() > 0;
-        emit_program(em, &src, &sp, &format!("nt={};kind=rnd", nt as u8));
+        emit_with_law(em, &src, &sp, &format!("nt={};kind=rnd", nt as u8));
     }
 }
